@@ -125,25 +125,23 @@ def set_ctx(c):
 
 
 # --------------------------------------------------------------------------
-def _frac_val(fr):
-    if fr.denominator == 1:
-        return z3.RealVal(fr.numerator)
-    return z3.RealVal(str(fr))
+from .poly import Poly, Fr  # noqa: E402
+from . import poly as _poly  # noqa: E402
 
 
 def lift0(x):
-    """concrete python/numpy number -> exact z3 rational"""
+    """concrete python/numpy number -> exact Fraction"""
     if isinstance(x, (bool, _np.bool_)):
-        return z3.RealVal(int(x))
+        return Fr(int(x))
     if isinstance(x, (int, _np.integer)):
-        return z3.RealVal(int(x))
+        return Fr(int(x))
     if isinstance(x, (float, _np.floating)):
         xf = float(x)
         if xf != xf or xf in (math.inf, -math.inf):
             raise Unsupported("non-finite concrete value %r mixed with symbols" % xf)
-        return _frac_val(fractions.Fraction(xf))
+        return Fr(xf)
     if isinstance(x, fractions.Fraction):
-        return _frac_val(x)
+        return x
     raise TypeError(type(x))
 
 
@@ -165,7 +163,12 @@ class SymB:
 
     def __bool__(self):
         c = CTX
-        t = z3.simplify(self.t)
+        t = self.t
+        if z3.is_true(t):
+            return True
+        if z3.is_false(t):
+            return False
+        t = z3.simplify(t)
         if z3.is_true(t):
             return True
         if z3.is_false(t):
@@ -261,30 +264,45 @@ def bterm(x):
     return z3.BoolVal(bool(x))
 
 
-ONE = z3.RealVal(1)
-ZERO = z3.RealVal(0)
-
-
 def _czero(o):
     return is_conc_num(o) and o == 0
 
 
-def _cone(o):
-    return is_conc_num(o) and o == 1
+P0 = Poly()
+P1 = Poly.const(1)
 
 
 class Sym:
-    """n/d with n, d z3 real terms (d None == 1)."""
+    """n/d with n, d canonical polynomials (d None == 1)."""
 
     __slots__ = ("n", "d")
 
     def __init__(self, n, d=None):
+        if d is not None:
+            if n.is_zero():
+                d = None
+            elif d.is_const():
+                c = d.const_value()
+                if c == 0:
+                    raise ZeroDivisionError("symbolic value with zero denominator")
+                n = n.scale(1 / c)
+                d = None
         self.n = n
         self.d = d
 
+    @staticmethod
+    def var(z3expr):
+        return Sym(Poly.var(z3expr))
+
     @property
     def t(self):
-        return self.n if self.d is None else self.n / self.d
+        return self.n.z3() if self.d is None else self.n.z3() / self.d.z3()
+
+    def is_const(self):
+        return self.d is None and self.n.is_const()
+
+    def const_value(self):
+        return self.n.const_value()
 
     @staticmethod
     def of(o):
@@ -292,26 +310,23 @@ class Sym:
             return o
         if isinstance(o, _np.ndarray) and o.shape == ():
             return Sym.of(o.item())
-        return Sym(lift0(o))
-
-    def _nd(self, o):
-        o = Sym.of(o)
-        return self.n, self.d, o.n, o.d
+        return Sym(Poly.const(lift0(o)))
 
     def __add__(self, o):
         if _czero(o):
             return self
         try:
-            a, b, c, d = self._nd(o)
+            o = Sym.of(o)
         except TypeError:
             return NotImplemented
+        a, b, c, d = self.n, self.d, o.n, o.d
         if b is None and d is None:
             return Sym(a + c)
         if b is None:
             return Sym(a * d + c, d)
         if d is None:
             return Sym(a + c * b, b)
-        if b.eq(d):
+        if b == d:
             return Sym(a + c, b)
         return Sym(a * d + c * b, b * d)
 
@@ -343,10 +358,17 @@ class Sym:
                 return 0
             if o == 1:
                 return self
+            return Sym(self.n.scale(lift0(o)), self.d)
         try:
-            a, b, c, d = self._nd(o)
+            o = Sym.of(o)
         except TypeError:
             return NotImplemented
+        a, b, c, d = self.n, self.d, o.n, o.d
+        # cheap cancellations keep denominators small
+        if b is not None and b == c:
+            return Sym(a, d)
+        if d is not None and d == a:
+            return Sym(c, b)
         n = a * c
         if b is None and d is None:
             return Sym(n)
@@ -359,16 +381,23 @@ class Sym:
     __rmul__ = __mul__
 
     def inv(self):
-        CTX.defined.append(self.n != 0)
+        if self.n.is_const():
+            c = self.n.const_value()
+            if c == 0:
+                raise ZeroDivisionError("division by a symbolic expression that is identically zero")
+            if self.d is None:
+                return Sym(Poly.const(1 / c))
+            return Sym(self.d.scale(1 / c))
+        CTX.defined.append(self.n.z3() != 0)
         if self.d is None:
-            return Sym(ONE, self.n)
+            return Sym(P1, self.n)
         return Sym(self.d, self.n)
 
     def __truediv__(self, o):
         if is_conc_num(o):
             if o == 0:
                 raise ZeroDivisionError("symbolic / concrete zero")
-            return self * (fractions.Fraction(1) / _to_fraction(o))
+            return Sym(self.n.scale(1 / lift0(o)), self.d)
         try:
             return self * Sym.of(o).inv()
         except TypeError:
@@ -376,7 +405,8 @@ class Sym:
 
     def __rtruediv__(self, o):
         if _czero(o):
-            CTX.defined.append(self.n != 0)
+            if not self.n.is_const():
+                CTX.defined.append(self.n.z3() != 0)
             return 0
         try:
             return Sym.of(o) * self.inv()
@@ -399,57 +429,74 @@ class Sym:
             return self.sqrt().inv()
         raise Unsupported("Sym ** %r" % (o,))
 
-    def sgn_expr(self):
-        """z3 real with the sign of self (zero iff self zero)"""
-        return self.n if self.d is None else self.n * self.d
+    # ---- sign predicates: python bool when decidable, else z3 Bool
+    def _sign(self, rel):
+        n, d = self.n, self.d
+        if d is None:
+            if n.is_const():
+                c = n.const_value()
+                return {"gt": c > 0, "ge": c >= 0, "lt": c < 0, "le": c <= 0, "eq": c == 0, "ne": c != 0}[rel]
+            z = n.z3()
+            return {"gt": z > 0, "ge": z >= 0, "lt": z < 0, "le": z <= 0, "eq": z == 0, "ne": z != 0}[rel]
+        zn, zd = n.z3(), d.z3()
+        if rel == "eq":
+            return zn == 0
+        if rel == "ne":
+            return zn != 0
+        pos = z3.Or(z3.And(zn > 0, zd > 0), z3.And(zn < 0, zd < 0))
+        neg = z3.Or(z3.And(zn > 0, zd < 0), z3.And(zn < 0, zd > 0))
+        if rel == "gt":
+            return pos
+        if rel == "lt":
+            return neg
+        if rel == "ge":
+            return z3.Or(zn == 0, pos)
+        return z3.Or(zn == 0, neg)
+
+    def sign_term(self, rel):
+        r = self._sign(rel)
+        return z3.BoolVal(r) if isinstance(r, bool) else r
 
     def __abs__(self):
-        n = z3.If(self.n >= 0, self.n, -self.n)
-        d = None if self.d is None else z3.If(self.d >= 0, self.d, -self.d)
-        return Sym(n, d)
+        return Sym(_abs_poly(self.n), None if self.d is None else _abs_poly(self.d))
 
-    def _cmp(self, o, f):
+    def _cmp(self, o, rel):
         try:
             x = self - o
         except TypeError:
             return NotImplemented
         if x is NotImplemented:
             return NotImplemented
-        return SymB(f(x.sgn_expr(), 0))
+        if not isinstance(x, Sym):
+            x = Sym.of(x)
+        r = x._sign(rel)
+        if isinstance(r, bool):
+            return r
+        return SymB(r)
 
     def __lt__(self, o):
-        return self._cmp(o, lambda a, b: a < b)
+        return self._cmp(o, "lt")
 
     def __le__(self, o):
-        return self._cmp(o, lambda a, b: a <= b)
+        return self._cmp(o, "le")
 
     def __gt__(self, o):
-        return self._cmp(o, lambda a, b: a > b)
+        return self._cmp(o, "gt")
 
     def __ge__(self, o):
-        return self._cmp(o, lambda a, b: a >= b)
+        return self._cmp(o, "ge")
 
     def __eq__(self, o):
         if o is None or isinstance(o, str):
             return False
-        try:
-            x = self - o
-        except TypeError:
-            return False
-        if x is NotImplemented:
-            return False
-        return SymB(x.n == 0)
+        r = self._cmp(o, "eq")
+        return False if r is NotImplemented else r
 
     def __ne__(self, o):
         if o is None or isinstance(o, str):
             return True
-        try:
-            x = self - o
-        except TypeError:
-            return True
-        if x is NotImplemented:
-            return True
-        return SymB(x.n != 0)
+        r = self._cmp(o, "ne")
+        return True if r is NotImplemented else r
 
     __hash__ = None
 
@@ -469,32 +516,53 @@ class Sym:
 
     def sqrt(self):
         c = CTX
+        if self.is_const():
+            v = self.const_value()
+            if v < 0:
+                raise ValueError("sqrt of a negative constant")
+            rn, rd = math.isqrt(v.numerator), math.isqrt(v.denominator)
+            if rn * rn == v.numerator and rd * rd == v.denominator:
+                return Sym(Poly.const(Fr(rn, rd)))
         for (arg, r) in c.sqrts:
             dlt = self - arg
-            if isinstance(dlt, Sym):
-                res, _ = check(c.all() + [dlt.n != 0], rlimit=RLIMIT // 8)
-                if res == "unsat":
-                    return r
+            if not isinstance(dlt, Sym):
+                dlt = Sym.of(dlt)
+            if dlt.n.is_zero():
+                return r
+            if dlt.n.is_const():
+                continue
+            res, _ = check(c.all() + [dlt.n.z3() != 0], rlimit=RLIMIT // 8)
+            if res == "unsat":
+                return r
         rv = c.fresh_real("sqrt")
+        out = Sym.var(rv)
         c.defined.append(rv >= 0)
-        c.defined.append((rv * rv == self.n) if self.d is None else (rv * rv * self.d == self.n))
-        c.defined.append(self.sgn_expr() >= 0)
-        out = Sym(rv)
+        if self.d is None:
+            c.defined.append(rv * rv == self.n.z3())
+        else:
+            c.defined.append(rv * rv * self.d.z3() == self.n.z3())
+        c.defined.append(self.sign_term("ge"))
         c.sqrts.append((self, out))
         return out
 
     def __floor__(self):
-        return Sym(z3.ToReal(z3.ToInt(self.t)))
+        if self.is_const():
+            return Sym(Poly.const(math.floor(self.const_value())))
+        return Sym.var(z3.ToReal(z3.ToInt(self.t)))
 
     def __ceil__(self):
-        return Sym(-z3.ToReal(z3.ToInt(-self.t)))
+        if self.is_const():
+            return Sym(Poly.const(math.ceil(self.const_value())))
+        return Sym.var(-z3.ToReal(z3.ToInt(-self.t)))
 
     def rint(self):
+        if self.is_const():
+            return Sym(Poly.const(round(self.const_value())))
         f = z3.ToInt(self.t)
         fr = self.t - z3.ToReal(f)
         half = z3.RealVal("1/2")
         r = z3.If(fr < half, f, z3.If(fr > half, f + 1, z3.If(f % 2 == 0, f, f + 1)))
-        return Sym(z3.ToReal(r))
+        return Sym.var(z3.ToReal(r))
 
     def __round__(self, nd=None):
         if nd:
@@ -508,10 +576,19 @@ class Sym:
         return concretize_int(self, trunc=False)
 
     def __float__(self):
+        if self.is_const():
+            return float(self.const_value())
         raise Unsupported("float() of a symbolic value (concretisation)")
 
     def __repr__(self):
         return "Sym(%s)" % z3.simplify(self.t)
+
+
+def _abs_poly(p):
+    if p.is_const():
+        return Poly.const(abs(p.const_value()))
+    z = p.z3()
+    return Poly.var(z3.If(z >= 0, z, -z))
 
 
 def _to_fraction(o):
@@ -527,6 +604,9 @@ INT_LO, INT_HI = -64, 64
 
 def concretize_int(sym, trunc=False, lo=None, hi=None):
     """fork over the feasible integer values of an integer-valued term"""
+    if isinstance(sym, Sym) and sym.is_const():
+        fr = sym.const_value()
+        return int(fr) if trunc else int(math.floor(fr))
     t = z3.simplify(sym.t if isinstance(sym, Sym) else sym)
     if z3.is_rational_value(t):
         fr = fractions.Fraction(t.numerator_as_long(), t.denominator_as_long())
@@ -559,15 +639,16 @@ def eqz(a, b=0):
     x = Sym.of(a) - b
     if not isinstance(x, Sym):
         x = Sym.of(x)
-    return x.n == 0
+    return x.sign_term("eq")
 
 
 def lift(x):
+    """Sym | concrete number -> z3 real term"""
     if isinstance(x, Sym):
         return x.t
     if isinstance(x, _np.ndarray) and x.shape == ():
         return lift(x.item())
-    return lift0(x)
+    return _poly._rv(lift0(x))
 
 
 def has_sym(*xs):
